@@ -176,7 +176,7 @@ def derived_stream(chk, n_cases):
         for what, cut in check_one(klass, detailed, history)[:2]:
             chk.violation(f"C08 oracle (derived-state stream): {what} [{klass}{'' if detailed else '/fast'} after {cut} ops of: "
                           f"{' ; '.join(describe(o) for o in history)}]",
-                          {"ext": "derived", "klass": klass, "detailed": detailed, "history": history})
+                          {"stream": "derived", "klass": klass, "detailed": detailed, "history": history})
         dc.prune_linecache()
 
 
